@@ -265,7 +265,7 @@ def spell(rng, spec, asg, defaults, fixed=0):
     return args, dict(items)
 
 
-def mutate(rng, spec, asg, pool, slots=None, typed_pair=False, fixed=0, near=False):
+def mutate(rng, spec, asg, pool, slots=None, typed_pair=False, fixed=0, near=False, defaults=None):
     """copy of asg with exactly one parameter slot changed; returns (new, slot) or None"""
     import copy
     new = {'pos': dict(asg['pos']), 'var': list(asg['var']), 'kwonly': dict(asg['kwonly']),
@@ -275,6 +275,17 @@ def mutate(rng, spec, asg, pool, slots=None, typed_pair=False, fixed=0, near=Fal
     cands += [('kwonly', n) for n in asg['kwonly']] + [('kw', n) for n in asg['kw']]
     if slots is not None:
         cands = [c for c in cands if c in slots]
+    if defaults is not None and slots is None and not typed_pair and not near and not asg['var'] and rng.random() < 0.25:
+        # a parameter left to its default in one call and given another value in the other
+        dn = [n for n in asg['defaulted'] if n in defaults and n not in spec.get('_pk', ())]
+        if dn:
+            n = rng.choice(dn)
+            opts = [v for v in pool if _ne(v, defaults[n])]
+            if opts:
+                new['defaulted'].remove(n)
+                kwonly_names = [x[0] for x in spec['kwonly']]
+                new['kwonly' if n in kwonly_names else 'pos'][n] = rng.choice(opts)
+                return new, ('default-vs-passed', n)
     if not cands:
         return None
     where, which = rng.choice(cands)
@@ -869,7 +880,7 @@ def judge_distinct(J, tgt, f, kg, rng, spec, asg, fixed, pool):
             if n in spec.get('_pk', ()) or n in spec_names(spec)[:fixed]:
                 del asg['pos'][n]
         asg['defaulted'] = [n for n in asg['defaulted'] if n not in spec.get('_pk', ())]
-    m = mutate(rng, spec, asg, pool, typed_pair=typed_leg, fixed=fixed)
+    m = mutate(rng, spec, asg, pool, typed_pair=typed_leg, fixed=fixed, defaults=tgt.defaults)
     if typed_leg and rng.random() < 0.4:
         # type swap across two slots: (.., 1, .., 2.0) vs (.., 1.0, .., 2) - the same multiset of
         # types, so only a key that keeps each type aligned with its argument separates them
